@@ -935,6 +935,13 @@ static auto has_seq_member(std::string const& m) -> int
     if (m == "unchecked_push") return requires(C& c, E const& v) { c.unchecked_push_back(v); };
     if (m == "unchecked_push_rv") return requires(C& c, E&& v) { c.unchecked_push_back(std::move(v)); };
     if (m == "unchecked_emplace") return requires(C& c) { c.unchecked_emplace_back(1); };
+    // the two push overloads exist as functions of their own ([inplace.vector.overview]: try_push_back(const T&) and
+    // try_push_back(T&&), likewise unchecked_push_back): one by-value overload would accept the same calls, but consume an
+    // rvalue before the capacity test
+    if (m == "try_push_cref_sig") return requires { static_cast<E* (C::*)(E const&)>(&C::try_push_back); };
+    if (m == "try_push_rv_sig") return requires { static_cast<E* (C::*)(E&&)>(&C::try_push_back); };
+    if (m == "unchecked_push_cref_sig") return requires { static_cast<E& (C::*)(E const&)>(&C::unchecked_push_back); };
+    if (m == "unchecked_push_rv_sig") return requires { static_cast<E& (C::*)(E&&)>(&C::unchecked_push_back); };
     if (m == "dump") return requires(C const& c) { c.size(); c.empty(); c.begin(); c.end(); };
     return -1;
 }
@@ -943,7 +950,7 @@ static char const* const ALL_MEMBERS[] = {"push", "push_rv", "emplace_back", "po
     "insert_fill", "insert_range", "move_insert", "erase", "erase_range", "resize", "resize_val", "assign_fill", "assign_range",
     "clear", "ctor_n", "ctor_n_val", "ctor_range", "copy_ctor", "move_ctor", "copy_assign", "move_assign", "swap", "swap_free",
     "erase_val", "erase_if", "cmp", "try_push", "try_push_rv", "try_emplace", "unchecked_push", "unchecked_push_rv",
-    "unchecked_emplace", "dump"};
+    "unchecked_emplace", "try_push_cref_sig", "try_push_rv_sig", "unchecked_push_cref_sig", "unchecked_push_rv_sig", "dump"};
 
 template <typename C, typename E>
 static auto has_stack_member(std::string const& m) -> int
